@@ -65,6 +65,13 @@ def specials():
         for pos, call in (('after-open', 'PAIR(%s1,2)'), ('before-comma', 'PAIR(1%s,2)'), ('after-comma', 'PAIR(1,%s2)'), ('before-close', 'PAIR(1,2%s)'),
                           ('only-first', 'PAIR(%s,2)'), ('only-second', 'PAIR(1, %s)'), ('nested', 'PAIR(PAIR(1,%s),2)')):
             out.append(('macro-arg:%s:%s' % (sname, pos), '#define PAIR(A,B) [A,B]\nx = ' + call % sep + ';\ny = 3;\n'))
+    # control characters inside #define bodies, names and parameter lists (a lone CR is not a line end)
+    for cname, ch in (('cr', '\r'), ('tab', '\t'), ('vt', '\x0b'), ('ff', '\x0c'), ('nul', '\x00'), ('bs', '\\')):
+        out.append(('define-body-%s' % cname, '#define A x%sy\nq = A;\nz = 1;\n' % ch))
+        out.append(('define-body-end-%s' % cname, '#define A x%s\nq = A;\nz = 1;\n' % ch))
+        out.append(('define-args-body-%s' % cname, '#define F(a) a%s+ a\nq = F(2);\nz = 1;\n' % ch))
+        out.append(('define-params-%s' % cname, '#define F(a,%sb) a + b\nq = F(1,2);\nz = 1;\n' % ch))
+        out.append(('code-%s' % cname, 'x = 1;%sy = 2;\n' % ch))
     out.append(('callable-name-at-argument-end', '#define T(A) A A\n#define Q(A) A\nT(s-Q)\nT(Q)\nT(1, Q)\n'))
     out.append(('define-unterminated-string', '#define A "\nx = A;\n'))
     out.append(('define-unterminated-string-args', '#define A(x) x + " 1\ny = A(2);\nz = 3;\n'))
@@ -216,12 +223,12 @@ def run_inputs(chk, runner, inputs, batch, script_every):
         flags.append(ws)
 
     def cpu(item):
-        if item[0].get('special'):
-            return 60000
+        if item[0].get('special') and len(item[0]['src']) > 2000:
+            return 60000     # the deep / long constructions; the small specials fall under the per-byte budget below
         ln = len(item[0]['src'])
         return 300 + ln * 0.02 * len(item)   # ms; far above the normal cost per byte and front end under ASan
 
-    results = core.run_items(runner, prefix, items, batch=batch, base_cpu_ms=5000, item_cpu_ms=cpu, counters=chk.counters, max_deaths=400)   # inputs that reach recorded defects die too; the cap only guards against a tree that is broken throughout
+    results = core.run_items(runner, prefix, items, batch=batch, base_cpu_ms=5000, item_cpu_ms=cpu, counters=chk.counters, max_deaths=(60 if core.tier() == 'quick' else 400))   # inputs that reach recorded defects die too; the cap only guards against a tree that is broken throughout
     for (label, path, text), ws, r, item in zip(inputs, flags, results, items):
         chk.evaluations += 1
         chk.sig(label.split('@')[0] + ':' + os.path.basename(path) + ':' + str(len(text)) + ':' + str(hash(text) & 0xffff))
